@@ -31,11 +31,8 @@ func keyNames(v *gv, acc map[string]bool) {
 func freshEnv(names []string, reversed bool) *zygo.Zlisp {
 	env := zygo.NewZlisp()
 	env.StandardSetup()
-	// a further interpreter of the process cannot declare structs on the current tree (reported
-	// to the lead, not C11's subject): only the defmap record type is declared here, values of the
-	// declared structs are rejected at construction and skipped
-	if res := lib.Eval(env, "(defmap ranch)", budget); res.Class != lib.OutValue {
-		fmt.Fprintln(os.Stderr, "declaring the defmap record type in a further interpreter failed:", res.Show())
+	if res := lib.Eval(env, declSrc, budget); res.Class != lib.OutValue {
+		fmt.Fprintln(os.Stderr, "declaring the record types in a further interpreter failed:", res.Show())
 		os.Exit(2)
 	}
 	if reversed {
@@ -154,6 +151,7 @@ func interpreterStream(r *runner, g *gen, rng *lib.Rng, n int) {
 	two := &gv{kind: 'I', i: 2}
 	ab := &gv{kind: 'H', tn: "hash", keys: []gkey{{false, "A"}, {false, "B"}}, vals: []*gv{one, two}}
 	r.interpreterCase([]*gv{ab})
+	r.interpreterCase([]*gv{{kind: 'H', tn: "Pt", keys: []gkey{{false, "y"}, {false, "x"}}, vals: []*gv{{kind: 'D', f: 1.5}, {kind: 'D', f: 2.5}}}})
 	r.interpreterCase([]*gv{{kind: 'H', tn: "ranch", keys: []gkey{{false, "y"}, {false, "x"}}, vals: []*gv{{kind: 'D', f: 1.5}, ab}}})
 	for k := 0; k < n; k++ {
 		size := 2 + rng.Intn(3)
